@@ -275,3 +275,8 @@ func CurrentWriterActor() string { return "writer#" + strconv.Itoa(goid()) }
 
 // WaitStatus returns the current status without waiting.
 func (g *Gate) WaitStatus() Status { return g.status() }
+
+// CurrentActor returns the goroutine-specific actor name for a harness
+// goroutine of the given kind ("copier", "writer"); hook points executed by
+// that goroutine are tracked under the same name.
+func CurrentActor(kind string) string { return kind + "#" + strconv.Itoa(goid()) }
